@@ -11,7 +11,7 @@ Periods == { <<-3600, 43200>>, <<86400, 172800>>, <<120, 43200>>, <<-172800, -86
 ExpCells == { [side |-> "exporter", proto |-> pr, srvCert |-> sc, srvName |-> sn, cliCert |-> cc, cliCA |-> FALSE, peerMax |-> pm,
                plain |-> pl, cfg |-> cf, nb |-> pd[1], na |-> pd[2], addr |-> ad, srvChain |-> "A"] :
               pr \in {"tls", "dtls"}, sc \in SrvCerts, sn \in SrvNames, cc \in {"none", "trusted"},
-              pm \in {11, 12, 13}, pl \in BOOLEAN, cf \in {"ok", "badCA", "badKey"}, pd \in Periods, ad \in {"ip", "host"} }
+              pm \in {11, 12, 13}, pl \in BOOLEAN, cf \in {"ok", "badCA", "badKey"}, pd \in Periods, ad \in {"ip", "host", "ip2"} }
 ColCells == { [side |-> "collector", proto |-> pr, srvCert |-> "trusted", srvName |-> "match", cliCert |-> cc, cliCA |-> ca, peerMax |-> pm,
                plain |-> pl, cfg |-> "ok", nb |-> -3600, na |-> 43200, addr |-> "ip", srvChain |-> ch] :
               pr \in {"tls", "dtls"}, cc \in CliCerts, ca \in BOOLEAN, pm \in {11, 12, 13}, pl \in BOOLEAN, ch \in {"A", "Bbundle"} }
@@ -22,7 +22,7 @@ EstablishedImpliesVerified ==
   (cell.side = "exporter" /\ cell.proto = "tls" /\ ExporterEstablishes(cell) = "yes") =>
      (Chains(cell.srvCert) /\ cell.nb <= 0 /\ cell.na >= 0 /\ cell.srvCert \in {"trusted", "hostSAN"} /\ cell.srvName # "mismatch" /\ cell.peerMax >= 12 /\ ~cell.plain
       /\ (cell.srvCert = "hostSAN" => (cell.srvName = "unset" /\ cell.addr = "host"))
-      /\ (cell.srvCert = "trusted" /\ cell.srvName = "unset" => cell.addr = "ip"))
+      /\ (cell.srvCert = "trusted" /\ cell.srvName = "unset" => cell.addr = "ip"))   \* neither by host name nor at another address
 DeliveryImpliesClientAuth ==
   (cell.side = "collector" /\ cell.proto = "tls" /\ cell.cliCA /\ CollectorDelivers(cell) = "yes") => cell.cliCert = "trusted"
 NoPlaintext == /\ cell.plain => (ExporterEstablishes(cell) = "no" /\ CollectorDelivers(cell) = "no")
